@@ -302,7 +302,8 @@ func udpRequestReply(ctx context.Context, conn net.Conn, request []byte,
 		return r, nil
 	}
 	if err == nil {
-		panic("eek")
+		// all we got were replies to somebody else's requests
+		err = ErrParse
 	}
 	return nil, err
 }
